@@ -918,6 +918,42 @@ func L2Views(thorough bool) []MethodCase {
 			}}
 		add(User("Parent"), []*TypeDef{child(), parent}, map[string]string{"shape": "nested"})
 	}
+	// the same nested result type on two attributes rendered with DIFFERENT views in one parent
+	// view (view names of parent and child do not coincide)
+	{
+		leaf := &TypeDef{Name: "Leaf", Kind: "result",
+			Attrs:    []*Attr{A("id", P(KString)), A("lname", P(KString)), A("bonus", P(KInt))},
+			Required: []string{"id"},
+			Views:    []View{{Name: "default", Attrs: []string{"id", "lname"}}, {Name: "tiny", Attrs: []string{"id"}}, {Name: "full", Attrs: []string{"id", "lname", "bonus"}}}}
+		two := &TypeDef{Name: "TwoLeaves", Kind: "result",
+			Attrs:    []*Attr{A("first", User("Leaf")), A("second", User("Leaf")), A("third", User("Leaf"))},
+			Required: []string{"first"},
+			Views: []View{
+				{Name: "default", Attrs: []string{"first", "second", "third"}, Sub: map[string]string{"first": "tiny", "third": "full"}},
+				{Name: "alt", Attrs: []string{"first", "second"}, Sub: map[string]string{"second": "tiny"}},
+				{Name: "same", Attrs: []string{"first", "second"}, Sub: map[string]string{"first": "full", "second": "full"}},
+			}}
+		add(User("TwoLeaves"), []*TypeDef{leaf, two}, map[string]string{"shape": "same-nested-type-different-views"})
+	}
+	// two structurally identical result types with different view definitions as siblings
+	{
+		author := &TypeDef{Name: "Author", Kind: "result",
+			Attrs:    []*Attr{A("id", P(KString)), A("pname", P(KString)), A("email", P(KString))},
+			Required: []string{"id"},
+			Views:    []View{{Name: "default", Attrs: []string{"id", "pname"}}, {Name: "full", Attrs: []string{"id", "pname", "email"}}}}
+		editor := &TypeDef{Name: "Editor", Kind: "result",
+			Attrs:    []*Attr{A("id", P(KString)), A("pname", P(KString)), A("email", P(KString))},
+			Required: []string{"id"},
+			Views:    []View{{Name: "default", Attrs: []string{"id", "pname", "email"}}, {Name: "full", Attrs: []string{"id"}}}}
+		article := &TypeDef{Name: "Article", Kind: "result",
+			Attrs:    []*Attr{A("title", P(KString)), A("author", User("Author")), A("editor", User("Editor"))},
+			Required: []string{"title"},
+			Views: []View{
+				{Name: "default", Attrs: []string{"title", "author", "editor"}},
+				{Name: "full", Attrs: []string{"title", "editor", "author"}, Sub: map[string]string{"author": "full", "editor": "full"}},
+			}}
+		add(User("Article"), []*TypeDef{author, editor, article}, map[string]string{"shape": "identical-sibling-types"})
+	}
 	// collection
 	{
 		td := &TypeDef{Name: "Elem", Kind: "result",
